@@ -49,6 +49,7 @@ ASSUMPTIONS = [
     "realization and objective weights are non-negative with a positive sum (the configuration rejects a non-positive sum)",
     "function values are finite or NaN (no infinities)",
     "no transforms are configured, so the 'results' delivered by the steps are the optimizer-domain results of calculate()",
+    "stream 'combined' (function+gradient request): only the FunctionResults of the request are judged here (the gradient result is C02/C03); mean estimators only, because the stddev gradient estimator may abort the whole request where the function stage alone would not; perturbed evaluations return the unperturbed values of their realization shifted by a constant, or NaN",
 ]
 TRUSTED = [
     "NumPy float64 arithmetic of the implementation is compared with exact rational arithmetic with the tolerance of DESIGN 2.2; the standard deviation is compared through its square",
